@@ -1,15 +1,114 @@
-"""C11 - an export writes exactly the root's and its dependencies' files, as documented."""
+"""C11 - an export writes exactly the root's and its dependencies' files, as documented.
+
+Exporter half (exportchecks): histories over the fixed universe, files written = closure of the
+visit lists, locations, nothing else touched, pre-existing content.
+Graph half (here): the generated modules of C03 (every edge kind x placement x directory spelling),
+PREDICT Reach.tla: the documented dependency relation (by name / through inlined and flattened
+types) closed from the root, and the documented location rule; REPLAY the real export_all_to into a
+directory holding unrelated files; ADJUDICATE Trace_Reach.tla: changed files = predicted locations,
+nothing removed, every path reported by dependencies() was written."""
+import json
+import os
+import re
+import shutil
+
+import c03
 import exportchecks
+import vlib
+from vlib import ToolError
 
 PROP = "C11"
 SLICES = "stale hist faults".split()
 
 
+def et_of(attr, g):
+    """export_to attribute text -> [given, dirform, cs] with the case number replaced by @"""
+    m = re.search(r'export_to = "([^"]*)"', attr)
+    if not m:
+        return {"given": False, "dirform": False, "cs": []}
+    s = m.group(1).replace("§", g)
+    return {"given": True, "dirform": s.endswith("/"), "cs": [segs(x, g) for x in s.split("/") if x != ""]}
+
+
+def segs(x, g):
+    return list(x.replace(g, "@"))
+
+
+def path_cs(rel, g):
+    return [segs(x, g) for x in rel.split("/") if x != ""]
+
+
+def placements(case, g):
+    dp, rp = c03.DPLACES[case["dplace"]], c03.RPLACES[case["rplace"]]
+    if case["dplace"] == "same_as_root" or case["rplace"] == "same_as_dep":
+        dp = rp = '#[ts(export_to = "both§.ts")]'
+    if case["dplace"] == "same_dotdot":
+        dp, rp = '#[ts(export_to = "sub§/../both§.ts")]', '#[ts(export_to = "both§.ts")]'
+    return et_of(dp, g), et_of(rp, g)
+
+
+def graph_half(tier, v, stats, seed):
+    cfg = {"edges": {e: {"named": n, "through": t} for e, (n, t) in c03.EDGE_DEPS.items()},
+           "types": {t: {"named": n, "through": th, "chars": list(t) + ["@"],
+                         "et": et_of('export_to = "pair§.ts"', "§") if t in ("S1", "S2") else et_of("", "§")}
+                     for t, (n, th) in c03.HELPER_DEPS.items()}}
+    if set(cfg["edges"]) != set(c03.EDGES):
+        raise ToolError("EDGE_DEPS does not describe every edge kind")
+    cfgp = os.path.join(vlib.BUILD, "reach-cfg.json")
+    json.dump(cfg, open(cfgp, "w"))
+    st = {"states": 0, "transitions": 0}
+    total = 0
+    for esm in ((False,) if tier == "quick" else (False, True)):
+        sandbox = vlib.shm_dir("c11g")
+        try:
+            units, obs, res, before = c03.export_cases(tier, esm, st, sandbox)
+            recs, meta = [], []
+            for u in units:
+                case = u.meta["case"]
+                g = u.name[1:]
+                d = os.path.join(sandbox, u.name)
+                after = c03.snapshot(d)
+                changed = sorted(p for p in after if before[u.name].get(p) != after[p])
+                removed = sorted(p for p in before[u.name] if p not in after)
+                d_et, r_et = placements(case, g)
+                dirtext = c03.DIRS[case["dir"]]
+                dirrec = {"abs": True, "cs": [list("cwd"), list("out")]} if dirtext.startswith("{ABS}") else {"abs": False, "cs": path_cs(dirtext, g)}
+                info = obs[u.name]["info"]
+                reported = [path_cs(x[1], g) for x in info["deps"]["ok"]] if "ok" in info["deps"] else []
+                recs.append({"edge": case["edge"], "d_et": d_et, "r_et": r_et, "dir": dirrec, "changed": [path_cs(p, g) for p in changed],
+                             "removed": [path_cs(p, g) for p in removed], "reported": reported, "ok": res[u.name] == "Ok"})
+                meta.append((case, u, changed, removed, res[u.name]))
+            tp = os.path.join(vlib.BUILD, "reach-trace.ndjson")
+            vlib.write_ndjson(tp, recs)
+            a = vlib.run_tlc("Trace_Reach", "Trace_Reach.cfg", workers=8, env={"VERIF_TRACE": tp, "VERIF_CFG": cfgp}, timeout=1800, tags=("BAD",), metatag="c11g")
+            vlib.tlc_must_succeed(a, "Trace_Reach")
+            if a.distinct != len(recs) + 1:
+                raise ToolError("adjudication judged %d of %d exports" % (a.distinct - 1, len(recs)))
+            st["states"] += a.distinct
+            st["transitions"] += a.generated
+            total += len(recs)
+            for b in a.payloads("BAD"):
+                case, u, changed, removed, result = meta[b["rec"] - 1]
+                def show(ps):
+                    return sorted("/".join("".join(x) for x in p) for p in ps)
+                for tag in sorted(b["tags"]):
+                    v.fail({"prop": PROP, "slice": "graphs", "tag": tag, "edge": case["edge"], "dplace": case["dplace"], "rplace": case["rplace"],
+                            "dir": case["dir"], "esm": esm},
+                           {"source": u.src, "result": result, "changed": changed, "removed": removed,
+                            "missing": show(b["missing"]), "extra": show(b["extra"])})
+        finally:
+            shutil.rmtree(sandbox, ignore_errors=True)
+    stats["states"] = stats.get("states", 0) + st["states"]
+    stats["transitions"] = stats.get("transitions", 0) + st["transitions"]
+    stats["adjudicated"] = stats.get("adjudicated", 0) + total
+    stats.setdefault("slices", {})["graphs"] = {"exports": total, "edge_kinds": len(c03.EDGES)}
+
+
 def run(tier):
-    return exportchecks.run_property(PROP, SLICES, tier)
+    return exportchecks.run_property(PROP, SLICES, tier, extra_stage=graph_half, extra_assumptions=(
+        "graph half: what a generated root names / inlines is written next to its source in checks/c03.py (EDGE_DEPS) and closed by Reach.tla",))
 
 
 def replay(path):
-    import json
     print(json.dumps(json.load(open(path))["descriptor"], indent=1))
     return 1
